@@ -317,6 +317,21 @@ class Inliner(object):
                     out.extend(self.block([pre], fn, names | {nm}, cls_stack))
                     out.append(s)
                     continue
+            # a helper call that is a direct argument of the statement's outermost call, with only call-free arguments before it:
+            # its value is taken into a temporary first (same evaluation order), then treated as an assignment from the helper
+            outer = getattr(s, 'value', None) if isinstance(s, (ast.Expr, ast.Assign, ast.Return)) else (s.exc if isinstance(s, ast.Raise) else None)
+            if isinstance(outer, ast.Call) and not self._callee(outer, cls_stack) and _pure_expr(outer.func):
+                for ai, a_ in enumerate(outer.args):
+                    hit_ = self._callee(a_, cls_stack)
+                    if hit_ and hit_[0].tail_ok and hit_[0].node is not fn and not isinstance(a_, ast.Await) and not hit_[0].is_async:
+                        self.tmp += 1
+                        nm = '_v%d' % self.tmp
+                        pre = ast.copy_location(ast.Assign(targets=[ast.Name(id=nm, ctx=ast.Store())], value=a_), s)
+                        outer.args[ai] = ast.copy_location(ast.Name(id=nm, ctx=ast.Load()), a_)
+                        out.extend(self.block([pre], fn, names | {nm}, cls_stack))
+                        break
+                    if not _pure_expr(a_):
+                        break
             val = getattr(s, 'value', None) if isinstance(s, (ast.Expr, ast.Assign, ast.Return)) else None
             hit = self._callee(val, cls_stack) if val is not None else None
             if hit and not (hit[0].tail_ok or isinstance(s, ast.Return)):
@@ -367,6 +382,10 @@ class Inliner(object):
                                 self.function(g, [st])
         ast.fix_missing_locations(tree)
         return tree
+
+
+def _pure_expr(e):
+    return not any(isinstance(n, (ast.Call, ast.Await, ast.Yield, ast.YieldFrom, ast.NamedExpr)) for n in ast.walk(e))
 
 
 def _selfchain(a):
